@@ -232,10 +232,13 @@ def ab_history(draw, max_steps):
     cplx = draw(st.integers(0, 3)) == 0      # complex values only in a quarter of the histories (several known findings live there)
     budget = draw(st.integers(1, max_steps))
     ill_at = draw(st.integers(0, budget)) if draw(st.integers(0, 7)) == 0 else -1
+    # half of the ill-nested histories wait for an open tuple/record (wrong tuple index, slot filled twice, value without key)
+    ill_in_struct = ill_at >= 0 and draw(st.booleans())
     steps = []
     ill = None
     while len(steps) < budget:
-        if ill_at >= 0 and len(steps) >= ill_at and ill is None:
+        if (ill_at >= 0 and len(steps) >= ill_at and ill is None
+                and (not ill_in_struct or (model.top().kind in ("tuple", "record") and not _needs_value(model.top())))):
             ill, cmd = draw(bad_command(model, len(arrays)))
             steps.append(cmd)
             want = model.step(cmd)
@@ -349,8 +352,15 @@ def _no_zero_regular(T):
     return T
 
 
+@st.composite
+def _case(draw, max_steps):
+    if draw(st.integers(0, 7)) == 0:
+        return draw(lb_case())
+    return draw(ab_history(max_steps))
+
+
 def strategy(tier):
-    return st.one_of(*([ab_history(MAX_STEPS[tier])] * 7 + [lb_case()]))
+    return _case(MAX_STEPS[tier])
 
 
 def setup(flavour, tier):
@@ -795,8 +805,8 @@ KNOWN = {
     "builder_clear_records_tuples": _known("region:struct_then_clear", ANY),
     # integers, then a complex at the same position: Complex128Builder::fromint64 loops to 2*length (heap overflow)
     "complex128builder_fromint64_overflow": _known("region:int_then_complex", ANY),
-    # a complex beside separately stored reals/ints in a union: NumpyArray::mergemany fills only half of the real items
-    "mergemany_real_into_complex": _known("region:complex_union", ("value:", "determinism:snapshot")),
+    # (a complex beside separately stored reals/ints in a union, region:complex_union: NumpyArray::mergemany filled only half of
+    #  the real items - fixed in /repo by 9413bda; replays/C14/5ec5d1a7e23a2181.json is its regression test)
     # append/extend from an IndexedArray over strings: Indexed*Builder::snapshot puts the content's parameters on the IndexedArray64
     "indexedbuilder_snapshot_parameters": _known("region:indexed_byref_string", ("invalid_snapshot",), "__array__"),
     # append/extend from a ByteMasked/BitMasked/UnmaskedArray: IndexedGenericBuilder::snapshot wraps the option-type node in an IndexedArray64
